@@ -62,7 +62,7 @@ func TestRaceAudit(t *testing.T) {
 				for _, q := range qs {
 					for _, enc := range []int{encInt, encBig} {
 						k := caseT{era: era, form: form, shape: shape, enc: enc, q: q}
-						cases = append(cases, ra.Case{Key: k.String(), PerG: true, Fn: func(g int) string {
+						cases = append(cases, ra.Case{Key: "output-value|" + k.String(), PerG: true, Fn: func(g int) string {
 							w := newWorld(g)
 							env := NewEraEnv(k.era)
 							realisticPP(env)
